@@ -199,7 +199,7 @@ def _pool_shard(item):
 def run(report):
     quick = report.tier == "quick"
     report.rule = RULE
-    switches = sorted(open_switches())
+    switches = sorted(open_switches('C02'))
     for s in switches:
         report.exclusions[s] = "open finding: shape stripped from corpus modules / not generated"
     items = [(_pool_shard, it) for it in sorted(pool.all_programs().items())]
